@@ -271,3 +271,8 @@ package txpool
 //@   requires inDom(s.senders, tx.sender) ==> (forall q uint64 :: inDom(s.senders[tx.sender].txs, q) ==> s.senders[tx.sender].txs[q] != nil && s.senders[tx.sender].txs[q] != tx && s.senders[tx.sender].txs[q].meta != nil && s.senders[tx.sender].txs[q].sender == tx.sender && s.senders[tx.sender].txs[q].seq == q && TxOK(s, s.senders[tx.sender].txs[q], s.senders[tx.sender]))
 //@   precall txpool\.senderTxHeap\)\.get$ :: argIs(0, tx.seq) && tx.seq >= seqHeap.seq
 //@   note the replace / insert section is reached only for a transaction whose sequence number is not below the sender's CURRENT sequence number in the pool (which handleTxUsed / forward may have advanced past the state sequence number the caller passes in): an expired transaction is never admitted
+
+//@ func newSenderTxHeap
+//@   props C20
+//@   modifies nothing
+//@   ensures result != nil && fresh(result) && result.seq == seq && result.txs != nil && mapLen(result.txs) == 0
